@@ -47,6 +47,22 @@ def structure_offsets(data: bytes) -> list[int]:
     return sorted(o for o in offs if 0 <= o < len(data))
 
 
+SIGS = (b"\x89PNG\r\n\x1a\n", b"\xff\xd8\xff", b"GIF8", b"%PDF", b"PK\x03\x04", b"<?xml", b"II*\x00")
+
+
+def object_offsets(data: bytes) -> list[int]:
+    """start offsets of embedded objects (pictures, nested packages) recognised by their signatures"""
+    out = []
+    for sig in SIGS:
+        i = data.find(sig, 1)
+        n = 0
+        while i > 0 and n < 24:
+            out.append(i)
+            i = data.find(sig, i + 1)
+            n += 1
+    return sorted(set(out))
+
+
 def gen_s1(rng, data: bytes, others: list[bytes]) -> list:
     """one storage fault as an explicit op"""
     n = len(data)
@@ -63,6 +79,14 @@ def gen_s1(rng, data: bytes, others: list[bytes]) -> list:
 
     kind = rng.choice(["trunc", "flip", "flip", "flipn", "zero", "copysec", "swapsec", "splice", "stale", "append", "wrongfile", "empty"]
                       if rng.random() < 0.97 else ["empty"])
+    objs = object_offsets(data) if rng.random() < 0.12 else []
+    if len(objs) >= 2:
+        # misdirected write of a whole extent: the bytes of one embedded object (with d bytes of its record header) land on another
+        i, j = rng.sample(range(len(objs)), 2)
+        d = rng.choice([0, 0, 8, 16, 17, 25, 33])
+        nxt = [o for o in objs if o > objs[i]]
+        ln = min((nxt[0] if nxt else n) - objs[i] + d, 262144)
+        return ["copyrun", max(0, objs[i] - d), max(0, objs[j] - d), max(16, ln)]
     if kind == "trunc":
         return ["trunc", off()]
     if kind == "flip":
@@ -107,6 +131,11 @@ def apply_s1(data: bytes, op: list, others: list[bytes]) -> bytes:
         i, j, ssz = op[1], op[2], op[3]
         src = bytes(b[i * ssz:(i + 1) * ssz])
         b[j * ssz:j * ssz + len(src)] = src[: max(0, len(b) - j * ssz)] if j * ssz < len(b) else b""
+    elif k == "copyrun":
+        src, dst, ln = op[1], op[2], op[3]
+        chunk = bytes(b[src:src + ln])
+        chunk = chunk[: max(0, len(b) - dst)]
+        b[dst:dst + len(chunk)] = chunk
     elif k == "swapsec":
         i, j, ssz = op[1], op[2], op[3]
         a, c = bytes(b[i * ssz:(i + 1) * ssz]), bytes(b[j * ssz:(j + 1) * ssz])
